@@ -168,6 +168,7 @@ func (t *Thread) enabled() bool {
 func (m *Machine) runScheduler(main *Thread) {
 	next := main
 	spin := map[*Thread]int{}
+	spinSince := map[*Thread]int{}
 	for {
 		m.cur = next
 		next.resume <- struct{}{}
@@ -203,9 +204,35 @@ func (m *Machine) runScheduler(main *Thread) {
 		spinning := cur.state == thRunnable && cur.waitDesc == "spin"
 		if spinning {
 			spin[cur]++
+			spinSince[cur]++
 			if spin[cur] > m.cfg.LoopBound {
 				m.killAll()
 				panic(abortRun{"unwind", "spin bound exceeded in thread " + cur.name})
+			}
+			// livelock: every thread that can run is in a wait loop (Gosched / Sleep) and has
+			// gone round at least twice since any other thread last made a step - nothing can
+			// change what they are waiting for
+			stuck := spinSince[cur] >= 3
+			for _, t := range enabled {
+				if !(t.state == thRunnable && t.waitDesc == "spin" && spinSince[t] >= 3) {
+					stuck = false
+				}
+			}
+			if stuck {
+				desc := "[" + cur.name + " spins] "
+				for _, t := range m.threads {
+					if t != cur && t.state != thDone {
+						desc += fmt.Sprintf("[%s %s] ", t.name, t.waitDesc)
+					}
+				}
+				m.cur = cur
+				m.reportViolation("deadlock", "livelock: a wait loop can never end", nil, desc)
+				m.killAll()
+				panic(abortRun{"deadlock", desc})
+			}
+		} else {
+			for t := range spinSince {
+				delete(spinSince, t)
 			}
 		}
 		var options []*Thread
